@@ -634,6 +634,42 @@ func ruleR17h(h *H) {
 			h.Fn(ir.FuncName(fn))
 			name := fmt.Sprintf("resume offset of notifications request #%d in %s", n, ir.FuncName(fn))
 			src, vfn := st.Val, fn
+			setFlagFrom := func(vals ...ssa.Value) {
+				resumeStateFlag = nil
+				var visit func(x ssa.Value, d int) bool
+				visit = func(x ssa.Value, d int) bool {
+					if d > 4 || resumeStateFlag != nil {
+						return resumeStateFlag != nil
+					}
+					if fa, isFA := x.(*ssa.FieldAddr); isFA {
+						if ref, okRef := ir.FieldAddrOf(fa); okRef && ref.Struct != nil {
+							resumeStateFlag = positionedFlag(h, ref.Struct, ref.Field)
+							return resumeStateFlag != nil
+						}
+					}
+					if al, isAl := x.(*ssa.Alloc); isAl {
+						for _, s2 := range ir.AllStores(al) {
+							if r, isF := ir.FieldLoadOf(ir.Canon(s2.Val)); isF && r.Struct != nil {
+								resumeStateFlag = positionedFlag(h, r.Struct, r.Field)
+								return resumeStateFlag != nil
+							}
+						}
+					}
+					if phi, isPhi := x.(*ssa.Phi); isPhi {
+						for _, e := range phi.Edges {
+							if visit(e, d+1) {
+								return true
+							}
+						}
+					}
+					return false
+				}
+				for _, v := range vals {
+					if visit(ir.Canon(v), 0) {
+						return
+					}
+				}
+			}
 			// the value may come out of an extracted helper with one result
 			if c, isCall := ir.Canon(src).(*ssa.Call); isCall {
 				if callee := c.Call.StaticCallee(); callee != nil && ir.InRepo(callee) && callee.Blocks != nil && callee.Signature.Results().Len() == 1 {
@@ -648,22 +684,15 @@ func ruleR17h(h *H) {
 						h.Fn(ir.FuncName(callee))
 					} else if len(rets) > 1 {
 						src, vfn = nil, callee
+						setFlagFrom(rets...)
 						ok, why := resumeReturnsOK(callee, rets)
+						resumeStateFlag = nil
 						h.Verdict(ok, rule, name, h.pos(in), "the start offset is only left out while no offset was received", why)
 						return
 					}
 				}
 			}
-			resumeStateFlag = nil
-			ir.DependsOn(src, func(x ssa.Value) bool {
-				if fa, isFA := x.(*ssa.FieldAddr); isFA {
-					if ref, okRef := ir.FieldAddrOf(fa); okRef && ref.Struct != nil {
-						resumeStateFlag = positionedFlag(h, ref.Struct, ref.Field)
-						return true
-					}
-				}
-				return false
-			})
+			setFlagFrom(src)
 			ok, why := resumeValueOK(vfn, src)
 			resumeStateFlag = nil
 			h.Verdict(ok, rule, name, h.pos(in), "the start offset is only left out while no offset was received", why)
@@ -813,10 +842,43 @@ func positionedFlag(h *H, st *types.Named, offsetField string) func(ssa.Value) b
 	if len(flags) == 0 {
 		return nil
 	}
-	return func(v ssa.Value) bool {
-		r, ok := ir.FieldLoadOf(ir.Canon(v))
-		return ok && r.Struct != nil && r.Struct.Obj() == st.Obj() && flags[r.Field]
+	var isFlag func(v ssa.Value, d int) bool
+	isFlag = func(v ssa.Value, d int) bool {
+		if d > 3 {
+			return false
+		}
+		c := ir.Canon(v)
+		if r, ok := ir.FieldLoadOf(c); ok && r.Struct != nil && r.Struct.Obj() == st.Obj() && flags[r.Field] {
+			return true
+		}
+		// `flag == true`, `flag != false`
+		if bo, ok := c.(*ssa.BinOp); ok && (bo.Op == token.EQL || bo.Op == token.NEQ) {
+			for _, pair := range [][2]ssa.Value{{bo.X, bo.Y}, {bo.Y, bo.X}} {
+				if k, isK := pair[1].(*ssa.Const); isK && k.Value != nil {
+					if (bo.Op == token.EQL && k.Value.String() == "true") || (bo.Op == token.NEQ && k.Value.String() == "false") {
+						return isFlag(pair[0], d+1)
+					}
+				}
+			}
+		}
+		// a predicate method that returns the flag
+		if call, ok := c.(*ssa.Call); ok {
+			if g := call.Call.StaticCallee(); g != nil && ir.InRepo(g) && g.Blocks != nil && g.Signature.Results().Len() == 1 {
+				n, all := 0, true
+				ir.Instrs(g, func(in ssa.Instruction) {
+					if ret, isRet := in.(*ssa.Return); isRet && len(ret.Results) == 1 {
+						n++
+						if !isFlag(ret.Results[0], d+1) {
+							all = false
+						}
+					}
+				})
+				return n > 0 && all
+			}
+		}
+		return false
 	}
+	return func(v ssa.Value) bool { return isFlag(v, 0) }
 }
 
 func resumeValueOK(fn *ssa.Function, val ssa.Value) (bool, string) {
